@@ -306,3 +306,6 @@ PARTS = [
     Part("algebra", check_algebra, {"quick": 2400, "thorough": 60000}, strategy=st_algebra),
     Part("reject", check_reject, {"quick": 1600, "thorough": 30000}, strategy=st_reject),
 ]
+
+# thorough tier: the same Hypothesis tests driven by atheris/libFuzzer (coverage on sigpy.linop/util plain-Python code)
+FUZZ = {"parts": ["algebra", "reject"], "runs": 48000}
